@@ -1,7 +1,7 @@
 """C16 — bearer tokens and resource identifiers are validated exactly on every entry path."""
 from ..facts import ty_adt, tystr, walk_ty, place_local, place_proj, op_place
 from ..cfg import CFG, Tracer, thaw
-from .. import dt, rx, recog
+from .. import dt, rx, recog, inline
 
 BT = "conjure_object::bearer_token::BearerToken"
 RID = "conjure_object::resource_identifier::ResourceIdentifier"
@@ -24,9 +24,73 @@ EXPLANATION = (
 
 
 def sites(ctx, adt):
+    """construction sites of `adt` in the workspace.  In the defining crate they are looked for in every function with its
+    private helpers, combinators and closures spliced in (so that `checked(s).map(Token)` is the guarded construction it is);
+    a private helper whose sites were all seen through its callers is not judged a second time on its own."""
     out = []
+    home = adt.split("::")[0]
     for cn in WORKSPACE:
         c = ctx.F.crate(cn)
+        if cn == home:
+            def builds(x):
+                return any(s_["r"].get("agg") == "adt" and s_["r"]["adt"] == adt for _, _, s_ in x.stmts()) or any(
+                    ((a_.get("c") or {}).get("fn") or {}).get("def") == adt for _, t_ in x.calls() for a_ in t_["args"])
+            roots = [b for b in c.bodies if b.kind in ("fn", "assoc_fn")]
+            exp = {}
+            for r_ in roots:
+                fam_ = [r_] + c.closures_of(r_)
+                direct = any(builds(x) for x in fam_)
+                callee_builds = any(t_["call"].get("local") and c.body(t_["call"].get("id")) is not None and c.body(t_["call"]["id"]).d.get("vis") != "pub"
+                                    for x in fam_ for _, t_ in x.calls())
+                if direct or callee_builds:
+                    # (bool-valued private functions are the validators themselves: kept as atoms)
+                    exp[r_.id] = inline.expand(c, r_, depth=2, pred=lambda cb: cb.d.get("vis") != "pub" and tystr(cb.local_ty(0)) != "bool", lower=True)
+            inl_by = {}
+            for rid, eb in exp.items():
+                for i_ in eb.inlined:
+                    inl_by.setdefault(i_, set()).add(rid)
+            callers = {}
+            for r_ in roots:
+                for x in [r_] + c.closures_of(r_):
+                    for _, t_ in x.calls():
+                        for f_ in [t_["call"]] + [(a_.get("c") or {}).get("fn") or {} for a_ in t_["args"]]:
+                            if f_.get("local") and f_.get("id"):
+                                callers.setdefault(f_["id"], set()).add(r_.id)
+            skipped = set()
+            changed = True
+            while changed:
+                changed = False
+                for r_ in roots:
+                    if r_.id in skipped or r_.d.get("vis") == "pub" or not callers.get(r_.id) or r_.id not in inl_by:
+                        continue
+                    if all(cid in skipped or (cid in exp and r_.id in exp[cid].inlined) for cid in callers[r_.id] if cid != r_.id):
+                        skipped.add(r_.id)
+                        changed = True
+            for r_ in roots:
+                if r_.id in skipped:
+                    continue
+                eb = exp.get(r_.id)
+                if eb is None:
+                    continue
+                for bb, j, s in eb.stmts():
+                    if s["r"].get("agg") == "adt" and s["r"]["adt"] == adt:
+                        out.append((c, eb, bb, j, s))
+                for bb, t_ in eb.calls():
+                    for a_ in t_["args"]:
+                        if ((a_.get("c") or {}).get("fn") or {}).get("def") == adt:
+                            ctx.violation("R16.1", eb.loc(t_["ln"]), f"{eb.id}|constructor-as-value", f"{eb.id}: the constructor of {adt.split('::')[-1]} is passed as a function value to {t_['call']['name']}: the construction cannot be tied to a validation")
+                for x in c.closures_of(r_):
+                    if x.id in eb.inlined:
+                        continue
+                    for bb, j, s in x.stmts():
+                        if s["r"].get("agg") == "adt" and s["r"]["adt"] == adt:
+                            out.append((c, x, bb, j, s))
+            for b in c.bodies:
+                if b.kind not in ("fn", "assoc_fn", "closure"):
+                    for bb, j, s in b.stmts():
+                        if s["r"].get("agg") == "adt" and s["r"]["adt"] == adt:
+                            out.append((c, b, bb, j, s))
+            continue
         for b in c.bodies:
             for bb, j, s in b.stmts():
                 if s["r"].get("agg") == "adt" and s["r"]["adt"] == adt:
@@ -138,10 +202,23 @@ def run(ctx):
             adt = F.adt(RID)
             fields = [f["name"] for f in adt["variants"][0]["fields"]]
             tr2 = Tracer(b, through_calls=True)
-            for k, fname in enumerate(fields):
-                if fname == "rid":
-                    continue
-                op = s["r"]["ops"][k]
+            def leaves(op_, ty_, name_, depth=0):
+                """(name, operand) of the usize boundary values, looking into nested local structs (`bounds: Bounds {..}`)"""
+                a_ = F.adt(ty_adt(ty_) or "")
+                if a_ and a_.get("local") and a_["kind"] == "struct" and depth < 3 and ty_adt(ty_) != RID:
+                    r_ = dt.resolve_copy(b, op_)
+                    if r_[0] == "def" and r_[1][1] != "T" and r_[1][2]["r"].get("agg") == "adt" and r_[1][2]["r"]["adt"] == ty_adt(ty_):
+                        out_ = []
+                        for kk_, f_ in enumerate(a_["variants"][0]["fields"]):
+                            out_ += leaves(r_[1][2]["r"]["ops"][kk_], f_["ty"], f_["name"], depth + 1)
+                        return out_
+                return [(name_, op_)]
+            flat = []
+            for k, f_ in enumerate(adt["variants"][0]["fields"]):
+                if f_["name"] != "rid":
+                    flat += leaves(s["r"]["ops"][k], f_["ty"], f_["name"])
+            ctx.check(len(flat) == 3, "R16.5", where, "rid|boundary-count", f"expected three component boundaries, found {[n for n, _ in flat]}", nontrivial=False)
+            for fname, op in flat:
                 gets = set()
                 ends = 0
                 for src in tr2.sources(op):
@@ -166,7 +243,7 @@ def run(ctx):
                                 if len(cg) == 1 and len(ce_) == 1 and Tracer(clo).root_locals(cg[0]["args"][1]) == {2}:
                                     gets.add(kk)
                                     ends += 1
-                exp = {"service_end": 1, "instance_end": 2, "type_end": 3}.get(fname)
+                exp = 1 if "service" in fname else 2 if "instance" in fname else 3 if "type" in fname else None
                 ctx.check(exp is not None and gets == {exp} and ends == 1, "R16.5", where, f"rid|boundary|{fname}",
                           f"boundary field {fname} is the end of capture group(s) {sorted(gets, key=str)} (end() calls: {ends}); expected group {exp}",
                           instance=f"{fname} = captures.get({exp}).end()")
@@ -212,7 +289,27 @@ def check_token_validator(ctx, co, vb):
     try:
         an = recog.analyse(ctx.F, co, vb)
     except recog.NotAnalysable as e:
-        ctx.violation("R16.2", vb.loc(), "token|shape", f"token validator left the analysable fragment: {e}")
+        # automaton form: a single scan over the bytes with a finite state (Empty / Token / Padding ...), compared with the
+        # automaton of ^[A-Za-z0-9\-._~+/]+=*$ by language equivalence
+        try:
+            A = recog.loop_automaton(ctx.F, co, vb)
+        except recog.NotAnalysable as e2:
+            ctx.violation("R16.2", vb.loc(), "token|shape", f"token validator left the analysable fragment: {e}; as a byte automaton: {e2}")
+            return
+
+        def sd(st, v):
+            if st == "E":
+                return "T" if v in TOKEN_CLASS else "D"
+            if st == "T":
+                return "T" if v in TOKEN_CLASS else ("P" if v == 0x3D else "D")
+            if st == "P":
+                return "P" if v == 0x3D else "D"
+            return "D"
+        w = recog.automaton_difference(A, "E", sd, lambda st: st in ("T", "P"))
+        rooted = Tracer(vb, through_calls=True).root_locals(A["next"][1]["args"][0]) == {1}
+        ctx.check(w is None and rooted, "R16.2", vb.loc(), "token|byte-class",
+                  f"token validator (byte automaton, {len(A['states'])} states) differs from ^[A-Za-z0-9\\-._~+/]+=*$ on the input {w!r}" if w is not None else "the scan does not run over the validated text",
+                  instance=f"token validator: byte automaton with {len(A['states'])} states accepts exactly ^[A-Za-z0-9\\-._~+/]+=*$ (language equivalence over all 256 byte values)")
         return
     pb, accepted = an["pred"], an["accepted"]
     extra = sorted(accepted - TOKEN_CLASS)
@@ -309,7 +406,8 @@ def routes(ctx, co, adt, short):
         bs = [b for b in co.bodies if b.trait == tr_name and ty_adt(b.self_ty) == adt and b.kind == "assoc_fn"]
         ctx.check(bool(bs), "R16.4", "conjure_object", f"{short}|{tr_name}|exists", f"{tr_name} for {short} missing", nontrivial=False)
         for b in bs:
-            fam = [b] + co.closures_of(b)
+            # combinators lowered: `checked(s).map(Token)` is a construction
+            fam = [inline.expand(co, b, depth=0, lower=True)] + co.closures_of(b)
             makes = [s for x in fam for _, _, s in x.stmts() if s["r"].get("agg") == "adt" and s["r"]["adt"] == adt]
             calls = [t["call"] for x in fam for _, t in x.calls()]
             via = [f for f in calls if (f["def"] == "core::str::traits::FromStr::from_str" and ty_adt(f["substs"][0]) == adt)
